@@ -36,7 +36,7 @@ def phase_exprs(E, name, x, y, quadratic):
     return E.choice(name, opts)
 
 
-def circuit_grad(E, layers, quadratic):
+def circuit_grad(E, layers, quadratic, kinds=None):
     import sympy
     from discopy.quantum import gates as G
     from discopy.quantum.circuit import Id
@@ -47,8 +47,8 @@ def circuit_grad(E, layers, quadratic):
     has_ctrl = False
     has_scalar = False
     for l in range(layers):
-        kind = E.choice('kind%d' % l, ['Rx', 'Rz', 'Ry', 'CRz', 'CRx', 'CU1',
-                                       'scalar', 'H', 'sqrt'])
+        kind = E.choice('kind%d' % l, kinds or [
+            'Rx', 'Rz', 'Ry', 'CRz', 'CRx', 'CU1', 'scalar', 'H', 'sqrt'])
         ex = phase_exprs(E, 'expr%d' % l, x, y, quadratic)
         if kind in ('Rx', 'Rz', 'Ry', 'CRz', 'CRx', 'CU1'):
             g = getattr(G, kind)(ex)
@@ -212,8 +212,15 @@ def zx_grad(E):
 def harnesses(tier):
     q = tier == "quick"
     T = 600 if q else 900
-    layers = 1 if q else 2
-    return [
+    layers = 1
+    more = [] if q else [
+        H("circuit_grad_2", circuit_grad,
+          dict(layers=2, quadratic=False, kinds=['Rx', 'Rz', 'CRz', 'H']),
+          FUNCS, covers=["pure", "mixed"], engine="SYM (z3 QF_NRA)",
+          bounds="Ket(0,0) then 2 layers from {Rx, Rz, CRz, H} with affine "
+          "phases (the same symbol may occur in both gates)", timeout_s=T,
+          solver_timeout_ms=30000)]
+    return more + [
         H("circuit_grad", circuit_grad, dict(layers=layers, quadratic=not q),
           FUNCS, covers=["pure", "mixed", "constant", "refused"],
           engine="SYM (z3 QF_NRA, circle pairs)",
